@@ -15,7 +15,8 @@ DECIDED = [
     "R-C19-BACKOFF: the value handed to timedelta(seconds=...) by the default policy is non-decreasing in retry_number, >= min_backoff and "
     "<= max_backoff (given multiplier > 0, min_backoff <= max_backoff); every power has an exponent bounded by max_exponent and no timedelta is "
     "built from an unclamped quantity (no overflow)",
-    "R-C19-OVERDUE: Parameters, ArgsBucket, ResultBucket and Job decide expiry as `now > timestamp + ttl` (strict), False exactly when ttl is None",
+    "R-C19-OVERDUE: Parameters, ArgsBucket, ResultBucket and Job decide expiry as `now > timestamp + ttl` (strict), False exactly when ttl is None; the Redis bucket broker "
+    "sets the store-side expiry to the absolute time timestamp + ttl (exat), not to a ttl counted from the moment of storing",
     "R-C19-PERIOD: the periodic branch returns anchor + period * ((now - anchor) // period + 1) in exact timedelta/int arithmetic (no float "
     "conversion), i.e. a whole number of periods after the time base with the strict '+ 1'",
 ]
@@ -27,6 +28,9 @@ ASSUMPTIONS = ["Python int is arbitrary precision; timedelta // timedelta and ti
 def run(ctx: Ctx) -> None:
     backoff(ctx)
     overdue_siblings(ctx, "R-C19-OVERDUE")
+    from .C13 import redis_bucket_expiry
+
+    redis_bucket_expiry(ctx, "R-C19-OVERDUE")  # the store-side expiry of buckets uses the same timestamp + ttl
     period(ctx)
 
 
